@@ -654,6 +654,10 @@ def _resolve_registry_points(cls, base, dct):
                 # dependency
                 dr.add_dependency(point, v)
 
+                # the datasource now takes part in the filters of the spec it
+                # implements: forget filter look-ups made while it was unbound
+                filters._CACHE.clear()
+
                 # Datasources override previously defined datasources of the
                 # same name for contexts they all depend on. Here we tell
                 # datasources of the same name not to execute under contexts
